@@ -61,7 +61,9 @@ def gen(rng, tier):
                          rng.choice([0.2, 1.0, 3.0])])
     if late:
         pos = rng.randint(1, len(ops))
-        ops.insert(pos, ['join', late])
+        # half of the late joins happen while messages flow (no quiet period
+        # before the side wires itself up)
+        ops.insert(pos, ['join', late, rng.random() < 0.5])
     return {'k': k, 'late': late, 'ops': ops,
             'delay_max': rng.choice([0.0, 0.0, 0.02, 0.2])}
 
@@ -73,7 +75,8 @@ def run(seed, scenario, trace=None, tier='quick'):
     def build(sim, cfg):
 
         st = {'sides': {}, 'recv': {}, 'joined': set(), 'sent': {},
-              'fwd_pubs': {}, 'joined_at': {}}
+              'fwd_pubs': {}, 'joined_at': {}, 'fwd_in': {}, 'fwd_out': {},
+              'flux': None}
 
         def on_event(ev):
             # publications by the forwarders, per message id
@@ -81,6 +84,16 @@ def run(seed, scenario, trace=None, tier='quick'):
                     'fwd:'):
                 for mid in mids_of_summary(ev['m']):
                     st['fwd_pubs'][mid] = st['fwd_pubs'].get(mid, 0) + 1
+                    key = (mid, ev['who'][4:],
+                           str(ev.get('chan', '')).startswith('proxy'))
+                    st['fwd_out'][key] = st['fwd_out'].get(key, 0) + 1
+            # what the forwarders themselves received
+            if ev['kind'] == 'deliver' and str(ev.get('to', '')).startswith(
+                    'fwd:'):
+                for mid in mids_of_summary(ev['m']):
+                    key = (mid, ev['to'][4:],
+                           str(ev.get('chan', '')).startswith('proxy'))
+                    st['fwd_in'][key] = st['fwd_in'].get(key, 0) + 1
         sim.listeners.append(on_event)
 
         def mids_of_summary(m):
@@ -158,7 +171,8 @@ def run(seed, scenario, trace=None, tier='quick'):
         def driver():
             net = N.net()
             net.delay_max = sc['delay_max']
-            pside = C.Side(sim, 'proxy')
+            sim.data['settle'] = 0.01      # end points connect as slowly as
+            pside = C.Side(sim, 'proxy')   # the real ones (10 ms each)
             proxy = {'ctrl' : pside.add_pubsub(rpc.PROXY_CONTROL_PUBSUB),
                      'state': pside.add_pubsub(rpc.PROXY_STATE_PUBSUB)}
             names = ['client'] + ['pilot.%04d' % i for i in range(sc['k'])]
@@ -171,12 +185,30 @@ def run(seed, scenario, trace=None, tier='quick'):
             def sync():
                 C_wait(sim, lambda: net.idle(queues=False), 60.0)
                 sim.sleep(0.3)
+                for rec in st['sent'].values():
+                    rec['since_sync'] = False
+                if st.get('joiner') is None or \
+                        st['joiner']._sim_thread.state == K.DONE:
+                    st['flux'] = None
             sync()
             for op in sc['ops']:
                 if op[0] == 'join':
-                    sync()
-                    join(op[1])
-                    sync()
+                    if len(op) > 2 and op[2]:
+                        # messages sent since the last quiet period and until
+                        # the next one may or may not see this side connected
+                        sim.fault('join_under_traffic')
+                        st['flux'] = op[1]
+                        for rec in st['sent'].values():
+                            if rec.get('since_sync'):
+                                rec['flux'] = op[1]
+                        th = C.P.Thread(target=join, args=[op[1]],
+                                        name='join.%s' % op[1])
+                        th.start()
+                        st['joiner'] = th
+                    else:
+                        sync()
+                        join(op[1])
+                        sync()
                 elif op[0] == 'partition':
                     sim.fault('partition')
                     net.partitions = {op[1]: sim.now + op[2]}
@@ -186,7 +218,9 @@ def run(seed, scenario, trace=None, tier='quick'):
                     if m['gap']:
                         sim.sleep(m['gap'])
                     st['sent'][m['id']] = {'m': m,
-                                           'joined': set(st['joined'])}
+                                           'joined': set(st['joined']),
+                                           'since_sync': True,
+                                           'flux': st['flux']}
                     if m['kind'] == 'advance':
                         state = getattr(rps, m.get('state',
                                                    'AGENT_EXECUTING'))
@@ -258,7 +292,26 @@ def run(seed, scenario, trace=None, tier='quick'):
                     fwd = (m['fwd'] is True)
                     origin_ok = m['origin'] in ('absent', 'own')
                 forwarded = fwd and origin_ok and src in rec['joined']
+                # every forwarder forwards what it received and is eligible
+                # (this also holds while its side is still joining)
                 for name in names:
+                    if name == src and fwd and origin_ok and \
+                            st['fwd_in'].get((mid, name, False)) and \
+                            not st['fwd_out'].get((mid, name, True)):
+                        sim.violation(PROP, 'received_not_forwarded',
+                                      'crosswire', {'msg': m, 'side': name,
+                                                    'direction': 'to_proxy'})
+                    if name != src and \
+                            st['fwd_in'].get((mid, name, True)) and \
+                            not st['fwd_out'].get((mid, name, False)):
+                        sim.violation(PROP, 'received_not_forwarded',
+                                      'crosswire', {'msg': m, 'side': name,
+                                                    'direction': 'from_proxy'})
+                for name in names:
+                    if rec.get('flux') and rec['flux'] in (name, src):
+                        # sent while that side was wiring itself up: whether
+                        # it counts as connected is not determined
+                        continue
                     got = st['recv'].get((mid, name, chan), 0)
                     if name == src:
                         want = 1
